@@ -140,6 +140,163 @@ class WithShim(Native):
         return jobs
 
 
+def _first_repo_frame(text):
+    """first stack frame that lies in the repository or the harness (for stable signatures)"""
+    import re
+    for line in text.splitlines():
+        m = re.search(r"((?:paseto[-_][\w-]+|pvmon|harness)[^\s:()]*(?:/src/[^\s:()]+)?):(\d+)", line)
+        if m and ("at " in line or "by " in line or "#" in line or "-->" in line):
+            return f"{m.group(1)}:{m.group(2)}"
+    return "unknown-frame"
+
+
+class Miri(Native):
+    """the same monitor binary interpreted by Miri (RustCrypto backends + core only: Miri cannot cross C FFI)"""
+    tool = "miri"
+    thorough_only = True
+
+    def __init__(self, name, monitor, args, shards=16, timeout=2400, note="", prop="C04"):
+        super().__init__(name, monitor, shards=shards, args=args, timeout=timeout, thorough_only=True, note=note)
+        self.prop = prop
+
+    def base_cmd(self, ctx):
+        return ["cargo", "+nightly", "miri", "run", "--offline", "--no-default-features", "--target-dir",
+                os.path.join(ctx.harness, "target-miri"), "--"]
+
+    def jobs(self, ctx):
+        jobs = super().jobs(ctx)
+        for j in jobs:
+            j[2]["MIRIFLAGS"] = "-Zmiri-disable-isolation"
+            j[2]["CARGO_NET_OFFLINE"] = "true"
+            j[2]["__cwd"] = ctx.harness
+        return jobs
+
+    def classify(self, ctx, label, rc, outpath, logpath):
+        if rc == 0 and outpath and os.path.exists(outpath):
+            return ("ok", "")
+        if rc == "timeout":
+            return ("inconclusive", "Miri watchdog fired (not a verdict)")
+        text = open(logpath, errors="replace").read()
+        if "Undefined Behavior" in text or "Data race detected" in text or "memory leaked" in text:
+            kind = "data-race" if "Data race" in text else ("leak" if "memory leaked" in text else "undefined-behavior")
+            return ("violation", text[text.find("error:"):][:600], f"{self.prop}|miri|{kind}:{_first_repo_frame(text)}")
+        return ("inconclusive", f"miri exit {rc}: {text.strip()[-300:]}")
+
+
+class Valgrind(Native):
+    """valgrind memcheck with leak checking over the monitor binary (FFI backends)"""
+    tool = "valgrind-memcheck"
+    thorough_only = True
+
+    def __init__(self, name, monitor, args, shards=16, timeout=3600, note="", prop="C04"):
+        super().__init__(name, monitor, shards=shards, args=args, timeout=timeout, thorough_only=True, note=note)
+        self.prop = prop
+
+    def base_cmd(self, ctx):
+        return ["valgrind", "--error-exitcode=9", "--leak-check=full", "--errors-for-leak-kinds=definite,indirect",
+                "--num-callers=30", "-q", ctx.binary]
+
+    def classify(self, ctx, label, rc, outpath, logpath):
+        if rc == 0 and outpath and os.path.exists(outpath):
+            return ("ok", "")
+        if rc == "timeout":
+            return ("inconclusive", "valgrind watchdog fired (not a verdict)")
+        text = open(logpath, errors="replace").read()
+        if rc == 9 or "Invalid read" in text or "Invalid write" in text or "definitely lost" in text:
+            import re
+            m = re.search(r"==\d+== (Invalid \w+|Conditional jump|Use of uninitialised|Mismatched free|Invalid free|[\d,]+ bytes in [\d,]+ blocks are \w+ lost)", text)
+            kind = (m.group(1) if m else "error").split(" bytes")[0]
+            kind = "leak" if "lost" in (m.group(1) if m else "") else kind.replace(" ", "-").lower()
+            return ("violation", text[:800], f"{self.prop}|memcheck|{kind}:{_first_repo_frame(text)}")
+        return ("inconclusive", f"valgrind exit {rc}: {text.strip()[-300:]}")
+
+
+class Tsan(Native):
+    """ThreadSanitizer build of the harness *and* of aws-lc / libsodium (C compiled with -fsanitize=thread)"""
+    tool = "thread-sanitizer (-Zsanitizer=thread -Zbuild-std, C deps built with clang -fsanitize=thread)"
+    thorough_only = True
+
+    def __init__(self, name, monitor, args, timeout=3600, note=""):
+        super().__init__(name, monitor, shards=1, args=args, timeout=timeout, thorough_only=True, note=note)
+        self._bin = None
+
+    def base_cmd(self, ctx):
+        return [self._bin]
+
+    def jobs(self, ctx):
+        import subprocess, time
+        env = ctx.cargo_env()
+        env.update({"CC": "clang", "CFLAGS": "-fsanitize=thread -g", "RUSTFLAGS": "-Zsanitizer=thread"})
+        tdir = os.path.join(ctx.harness, "target-tsan")
+        t0 = time.time()
+        with open(os.path.join(ctx.rundir, "build-tsan.log"), "w") as f:
+            r = subprocess.run(["cargo", "+nightly", "build", "--offline", "--release", "-Zbuild-std", "--target",
+                                "x86_64-unknown-linux-gnu", "--target-dir", tdir], cwd=ctx.harness, env=env, stdout=f, stderr=subprocess.STDOUT)
+        ctx.log(f"[build] tsan: exit {r.returncode} in {time.time()-t0:.1f}s")
+        if r.returncode != 0:
+            return [("build-failed", ["false"], dict(os.environ), None, 10)]
+        self._bin = os.path.join(tdir, "x86_64-unknown-linux-gnu", "release", "pvmon")
+        jobs = super().jobs(ctx)
+        for j in jobs:
+            j[2]["TSAN_OPTIONS"] = "halt_on_error=0 exitcode=66 report_signal_unsafe=0"
+        return jobs
+
+    def classify(self, ctx, label, rc, outpath, logpath):
+        text = open(logpath, errors="replace").read() if os.path.exists(logpath) else ""
+        n = text.count("WARNING: ThreadSanitizer")
+        if n or rc == 66:
+            return ("violation", f"{n} ThreadSanitizer report(s): " + text[text.find("WARNING: ThreadSanitizer"):][:700],
+                    f"C17|tsan|data-race:{_first_repo_frame(text[text.find('WARNING: ThreadSanitizer'):])}")
+        if rc == 0 and outpath and os.path.exists(outpath):
+            return ("ok", "")
+        if rc == "timeout":
+            return ("inconclusive", "TSan watchdog fired (not a verdict)")
+        return ("inconclusive", f"tsan build or run failed (exit {rc}): {text.strip()[-300:]}")
+
+
+class Fuzz(Stage):
+    """coverage-guided libFuzzer + AddressSanitizer target that reuses the monitor's oracle"""
+    tool = "libFuzzer + AddressSanitizer (cargo fuzz)"
+    thorough_only = True
+
+    def __init__(self, name, target, seconds=300, note=""):
+        self.name = name
+        self.target = target
+        self.seconds = seconds
+        self.note = note
+
+    def jobs(self, ctx):
+        fdir = os.path.join(ctx.root, "fuzz")
+        env = ctx.cargo_env()
+        env["__cwd"] = fdir
+        outpath = os.path.join(ctx.rundir, f"{self.name}-0.json")
+        corpus = os.path.join(fdir, "corpus", self.target)
+        os.makedirs(corpus, exist_ok=True)
+        cmd = ["cargo", "+nightly", "fuzz", "run", self.target, corpus, "--", f"-max_total_time={self.seconds}", "-timeout=10",
+               f"-fork={ctx.ncpu}", "-len_control=0", "-max_len=1200", "-ignore_crashes=0", f"-seed={ctx.seed}"]
+        return [("0", cmd, env, outpath, self.seconds + 1200)]
+
+    def classify(self, ctx, label, rc, outpath, logpath):
+        import re, json as _json
+        text = open(logpath, errors="replace").read() if os.path.exists(logpath) else ""
+        execs = [int(x) for x in re.findall(r"^#(\d+):", text, re.M)]
+        cov = [int(x) for x in re.findall(r"cov: (\d+)", text)]
+        n = max(execs) if execs else 0
+        rep = {"prop": "C04", "shard": 0, "nshards": 1, "seed": ctx.seed, "tier": ctx.tier, "evaluations": n, "distinct": 0,
+               "classes": {f"libfuzzer.{self.target}.executions": n}, "samples": [], "violations": [], "violation_counts": {},
+               "inconclusive": [], "info": {f"libfuzzer.{self.target}": {"executions": n, "coverage_edges": max(cov) if cov else 0, "seconds": self.seconds}}}
+        with open(outpath, "w") as f:
+            _json.dump(rep, f)
+        crashed = "ERROR: AddressSanitizer" in text or "panicked at" in text or "deadly signal" in text or re.search(r"crash-[0-9a-f]{8,}", text)
+        if crashed:
+            art = re.search(r"(artifacts/\S+/(?:crash|oom|timeout)-[0-9a-f]+)", text)
+            return ("violation", (art.group(1) if art else "") + " " + text[text.find("panicked at"):][:400] if "panicked at" in text else text[-600:],
+                    f"C04|libfuzzer|{self.target}:{_first_repo_frame(text)}")
+        if n == 0:
+            return ("inconclusive", f"fuzzer did not run (exit {rc}): {text.strip()[-300:]}")
+        return ("ok", "")
+
+
 # -------------------------------------------------------------------------------------------------
 def c01(ctx):
     return [Native("roundtrip", "c01")]
@@ -207,6 +364,39 @@ def c16(ctx):
         Native("fresh", "c16", args=["--part", "fresh"], note="Part A: random fields of N consecutive operations per kind logged to run/C16/<tier>/c16-events-*.bin"),
         Single("offline-uniqueness-check", "c16check", lambda c: [c.rundir], note="offline checker over the event logs of all shards: sorted merge, no random field may repeat"),
         WithShim("faults", "c16", args=["--part", "faults"], shards=4, quick_shards=4, note="Part B/C: fail-from-k and short-read-at-k at every OS draw index, fed bytes must reappear (getrandom backends v1-v4)"),
+    ]
+
+
+class Repeated(Native):
+    """the whole workload N times in sequence with consecutive seeds (each run uses all cores itself)"""
+    def __init__(self, name, monitor, args, repeats, quick_repeats=None, **kw):
+        super().__init__(name, monitor, shards=1, args=args, parallel=1, **kw)
+        self.repeats = repeats
+        self.quick_repeats = quick_repeats or repeats
+
+    def jobs(self, ctx):
+        n = self.repeats if ctx.thorough else self.quick_repeats
+        out = []
+        for i in range(n):
+            outpath = os.path.join(ctx.rundir, f"{self.name}-{i}.json")
+            cmd = self.base_cmd(ctx) + [self.monitor, "--tier", ctx.tier, "--seed", str(ctx.seed + i), "--shard", "0/1", "--out", outpath] + self.args + ctx.passthru
+            env = dict(os.environ)
+            env["PVMON_RUNDIR"] = ctx.rundir
+            out.append((str(i), cmd, env, outpath, self.timeout))
+        return out
+
+
+def c17(ctx):
+    crash = "C17|process|abort-or-signal"
+    return [
+        Repeated("concurrent", "c17", ["--part", "concurrent"], repeats=8, quick_repeats=3, crash_sig=crash,
+                 note="Part A: T in {2,4,8,16} threads on shared keys, history checked against the sequential oracle, overlap counted"),
+        Native("histories", "c17", args=["--part", "histories"], crash_sig=crash, note="Part C: failure histories, probe(K) == probe(fresh copy) after every step"),
+        Tsan("tsan", "c17", ["--part", "concurrent"], note="Part B: the concurrent workload under ThreadSanitizer with instrumented aws-lc and libsodium"),
+        Miri("miri-threads", "c17", ["--part", "concurrent", "--backend", "v4,v2", "--scale", "0.01"], shards=1, prop="C17",
+             note="2..16-thread miniature on the Ed25519 RustCrypto backends under Miri's data-race detector"),
+        Valgrind("memcheck-histories", "c17", ["--part", "histories", "--backend", "v3lc,v4na", "--scale", "0.15"], prop="C17",
+                 note="failure histories on the FFI backends under memcheck (ownership of aws-lc objects on error paths)"),
     ]
 
 
@@ -350,5 +540,14 @@ PROPS = {
         "stages": c16,
         "floor": {"quick": 100000, "thorough": 1000000},
         "required_classes": ["fail-closed.err", "fed-bytes-observed-in-output", "short-read.survived"],
+    },
+    "C17": {
+        "level": "exploration",
+        "level_text": "Part A: per backend one shared key set, 2/4/8/16 threads released by a barrier each running hundreds of seeded operations of 16 kinds (incl. verifying tokens produced by other threads); every operation is logged with start/end ticks and the history is checked after join against the sequentially precomputed oracle; the evidence reports how many operation pairs of different threads really overlapped (a run without overlap is inconclusive). Part B (thorough): the same workload under ThreadSanitizer with aws-lc and libsodium compiled with -fsanitize=thread - a happens-before analysis of the accesses performed, independent of whether a race shows in results - plus a Miri miniature. Part C: random histories of failing and succeeding calls; after every step the key must be indistinguishable from a fresh copy parsed from its serialisation (also under memcheck on the FFI backends).",
+        "level_note": "Trusted: the sequential oracle computed before threads start; TSan sees instrumented code only (assembly inner loops of aws-lc/libsodium are uninstrumented, which can hide but not invent races). 'All interleavings' is sampled: schedules come from the OS scheduler on 16 cores.",
+        "technique": "recorded concurrent history checked against a sequential oracle + ThreadSanitizer/Miri race detection + failure-history state probes",
+        "stages": c17,
+        "floor": {"quick": 20000, "thorough": 200000},
+        "required_classes": ["sum.overlapping-operation-pairs", "sum.history-steps"],
     },
 }
